@@ -135,3 +135,44 @@ pub fn f32_lit(v: f32) -> String {
         format!("f32::from_bits({:#x})", v.to_bits())
     }
 }
+
+/// Runs `f(batch, slot)` for every batch index on `slots` workers (each with its own cargo target
+/// directory); batches are picked in order and no new one is started once `failed` says a finished
+/// one found something. Entry b is None only for batches that were never started.
+pub fn par_batches<R: Send>(batches: usize, slots: usize, f: impl Fn(usize, usize) -> R + Sync, failed: impl Fn(&R) -> bool + Sync) -> Vec<Option<R>> {
+    use std::sync::atomic::{AtomicBool, AtomicUsize, Ordering};
+    let next = AtomicUsize::new(0);
+    let stop = AtomicBool::new(false);
+    let out: std::sync::Mutex<Vec<Option<R>>> = std::sync::Mutex::new((0..batches).map(|_| None).collect());
+    std::thread::scope(|sc| {
+        for slot in 0..slots.max(1).min(batches.max(1)) {
+            let (next, stop, out, f, failed) = (&next, &stop, &out, &f, &failed);
+            sc.spawn(move || loop {
+                if stop.load(Ordering::SeqCst) {
+                    break;
+                }
+                let b = next.fetch_add(1, Ordering::SeqCst);
+                if b >= batches {
+                    break;
+                }
+                let r = f(b, slot);
+                if failed(&r) {
+                    stop.store(true, Ordering::SeqCst);
+                }
+                out.lock().unwrap()[b] = Some(r);
+            });
+        }
+    });
+    out.into_inner().unwrap()
+}
+
+pub fn any_not_ok(v: &[crate::c15::Outcome]) -> bool {
+    v.iter().any(|o| !matches!(o, crate::c15::Outcome::Ok))
+}
+
+/// worker slots (cargo target directories) for compiled batches: 4 in the quick tier (<= 16 batches;
+/// these are the ones `gen warmup` pre-builds), 12 in the thorough tier
+pub const QUICK_SLOTS: usize = 4;
+pub fn slots_for(batches: usize) -> usize {
+    if batches <= 16 { batches.clamp(1, QUICK_SLOTS) } else { 12 }
+}
